@@ -92,6 +92,8 @@ def run(tier, seed):
     for (kind, arg), e in enc.items():
         eb = bytes.fromhex(e)
         trailer = bytes(rng.getrandbits(8) for _ in range(rng.choice([0, 0, 1, 3, 9])))
+        if rng.random() < 0.5 or len(eb) >= 8:      # what follows is often another small encoding (0, 1, -1, a continuation byte): "regardless of what follows"
+            trailer = bytes([rng.choice([0x00, 0x01, 0x02, 0x7f, 0x80, 0x81, 0xff])]) + trailer
         if kind == "uv": want = "ok %s %d" % (arg, len(eb))
         elif kind == "sv": want = "ok %s %d" % (arg, len(eb))
         elif kind == "f64":
